@@ -291,17 +291,12 @@ def rule_drive(ctx, M, rule):
     probs = []
     if len(flushes) != 1:
         probs.append("%d flush sites (expected 1)" % len(flushes))
-    item_edges = []
-    for a in costream.awaits_of(bi, "next"):
-        item_edges.append((bi.outcome_edges(a.site, "Ready", "Some"), ("field", ("variant", ("field", ("variant", a.site.term, "Ready"), 0), "Some"), 0), a.where))
-    for a in costream.awaits_of(bi, "race"):
-        for path, e in bi.outcome_tests(a.site):
-            if path and path[-2:] == (("variant", "Item"), ("field", 0)) and e["kind"] == "discr":
-                ed = bi.edge(e, "Some")
-                if ed:
-                    item_edges.append(([ed], ("field", ("variant", e["subject"], "Some"), 0), a.where + " State::Item(Some)"))
-    if len(item_edges) < 2:
-        probs.append("expected two sources of items (race arm and the Empty => iter.next() arm), found %d" % len(item_edges))
+    item_edges = costream.item_edges_of_source(M, bi)
+    unc = costream.uncovered_source_options(M, bi)
+    if unc or len(costream.source_option_terms(M, bi)) < 2:
+        probs.append("an item source (race arm / Empty => iter.next() arm) is not matched on Some / None: %s" % unc)
+    if not item_edges:
+        probs.append("no Some(item) edge found")
     claimed = set()
     for edges, payload, what in item_edges:
         mine = [s for s in sends if s.arg(1) is not None and s.arg(1)[0] == "call" and s.arg(1)[1][1] == "ready" and s.arg(1)[2] and s.arg(1)[2][0] == payload]
